@@ -37,7 +37,7 @@ TOL = 2e-5
 
 
 def gen_cases(seed, tier):
-    return sampling.gen_cases(seed, tier, 1, 340, 3000)
+    return sampling.gen_cases(seed, tier, 1, 340, 12000)
 
 
 def _kcls(k):
